@@ -191,9 +191,12 @@ def check_rewrite_scope(ctx: Ctx) -> None:
                 continue
             tests = _isinstance_tests(ctx, fi, n)
             ok = any(o == obj and lab == "T" and all(c == "marko.inline.RawText" for c in cls) and cls for o, cls, lab in tests)
-            if not ok and isinstance(tg.value, ast.Name):
-                # node variable unpacked from the segment list: every non-None node stored there is a RawText (checked below)
-                org = origins(prog, fi, tg.value, n)
+            rec = segment_record_fields(ctx)
+            if not ok and (isinstance(tg.value, ast.Name) or (rec is not None and isinstance(tg.value, ast.Attribute) and tg.value.attr == rec[1]
+                                                              and isinstance(tg.value.value, ast.Name))):
+                # node variable unpacked from the segment list (or the node field of a segment record taken from it): every
+                # non-None node stored there is a RawText (checked below)
+                org = origins(prog, fi, tg.value.value if isinstance(tg.value, ast.Attribute) else tg.value, n)
                 ok = bool(org) and all(o[0] == "iter" for o in org) and any(
                     b.kind == "test" and lab == "T" and norm(b.ast) == f"{obj} is not None" for b, lab in all_guards(prog, fi, n))
                 if ok:
@@ -249,6 +252,49 @@ def check_rewrite_scope(ctx: Ctx) -> None:
                "ellipses change a URL", where(m, m.node))
 
 
+def _record_fields(ctx: Ctx, fi: FuncInfo, call: ast.AST) -> list[str] | None:
+    """Field names of the small record class (NamedTuple / dataclass without __init__) that `call` constructs."""
+    if not (isinstance(call, ast.Call) and isinstance(call.func, (ast.Name, ast.Attribute))):
+        return None
+    ci = ctx.repo.resolve_expr(call.func, fi.module, fi)
+    if not isinstance(ci, ClassInfo) or "__init__" in ci.methods:
+        return None
+    return [st.target.id for st in ci.node.body if isinstance(st, ast.AnnAssign) and isinstance(st.target, ast.Name)] or None
+
+
+def _record_as_pair(ctx: Ctx, fi: FuncInfo, call: ast.AST) -> ast.Tuple | None:
+    """`_Segment(text=t)` / `_Segment(t, node)` read as the pair (t, node) it stands for (defaults filled in)."""
+    fields = _record_fields(ctx, fi, call)
+    if fields is None or len(fields) != 2:
+        return None
+    ci = ctx.repo.resolve_expr(call.func, fi.module, fi)
+    defaults = {st.target.id: st.value for st in ci.node.body if isinstance(st, ast.AnnAssign) and isinstance(st.target, ast.Name)}
+    vals: dict[str, ast.AST] = {}
+    for f_, a in zip(fields, call.args):
+        vals[f_] = a
+    for k in call.keywords:
+        if k.arg in fields:
+            vals[k.arg] = k.value
+    for f_ in fields:
+        if f_ not in vals:
+            if defaults.get(f_) is None:
+                return None
+            vals[f_] = defaults[f_]
+    return ast.copy_location(ast.Tuple(elts=[vals[fields[0]], vals[fields[1]]], ctx=ast.Load()), call)
+
+
+def segment_record_fields(ctx: Ctx) -> list[str] | None:
+    """When the inline segments are records instead of (text, node) pairs: their two field names, in that order."""
+    from .. import anchors
+
+    cs = anchors.collect_segments_function(ctx)
+    for x in ast.walk(cs.node):
+        f = _record_fields(ctx, cs, x)
+        if f is not None and len(f) == 2:
+            return f
+    return None
+
+
 def _segments_nodes_are_rawtext(ctx: Ctx, report: bool = False) -> bool:
     repo, prog = ctx.repo, ctx.prog
     from .. import anchors
@@ -272,6 +318,10 @@ def _segments_nodes_are_rawtext(ctx: Ctx, report: bool = False) -> bool:
                 for t in tup:
                     if isinstance(t, ast.Tuple) and len(t.elts) == 2:
                         sites.append((node, t))
+                    else:
+                        pair = _record_as_pair(ctx, cs, t)
+                        if pair is not None:
+                            sites.append((node, pair))
     for node, c in sites:
         if True:
             n += 1
@@ -764,9 +814,10 @@ def check_writeback(ctx: Ctx) -> None:
         raise AnalysisError("transformer closure of rewrite_text_across_inlines not found")
     repo.func(tr.qual)  # anchor
     flow = prog.flow(tr)
-    asserts = [n for n in flow.cfg.nodes if n.kind == "stmt" and isinstance(n.ast, ast.Assert)]
-    len_assert = [n for n in asserts if isinstance(n.ast.test, ast.Compare) and isinstance(n.ast.test.ops[0], ast.Eq)
-                  and all(isinstance(x, ast.Call) and isinstance(x.func, ast.Name) and x.func.id == "len" for x in [n.ast.test.left, n.ast.test.comparators[0]])]
+    # (an assert is a test node of the CFG whose F edge raises; an explicit `if len(a) != len(b): raise` is as good)
+    asserts = [n for n in flow.cfg.nodes if n.kind == "test" and isinstance(n.owner, ast.Assert)]
+    len_assert = [n for n in asserts if isinstance(n.ast, ast.Compare) and isinstance(n.ast.ops[0], ast.Eq)
+                  and all(isinstance(x, ast.Call) and isinstance(x.func, ast.Name) and x.func.id == "len" for x in [n.ast.left, n.ast.comparators[0]])]
     stores = [n for n in flow.cfg.nodes if n.kind == "stmt" and isinstance(n.ast, ast.Assign) and isinstance(n.ast.targets[0], ast.Attribute)
               and n.ast.targets[0].attr == "children"]
     ctx.require("R-SUBSHAPE", "write-back store in rewrite_text_across_inlines", len(stores), 1)
@@ -781,6 +832,8 @@ def check_writeback(ctx: Ctx) -> None:
         text_var = None
         if head is not None and isinstance(head.ast.target, ast.Tuple) and head.ast.target.elts and isinstance(head.ast.target.elts[0], ast.Name):
             text_var = head.ast.target.elts[0].id
+        elif head is not None and isinstance(head.ast.target, ast.Name) and segment_record_fields(ctx) is not None:
+            text_var = f"{head.ast.target.id}.{segment_record_fields(ctx)[0]}"  # for segment in segments: segment.text
         ok = False
         cursor = None
         zipped_offsets = False
